@@ -192,7 +192,7 @@ fn gen_prefix(g: &mut Gen, high_extreme_ok: bool) -> Vec<u64> {
 
 /// a distribution that validation rejects (used only inside machines: if machine
 /// validation lets it through anywhere, running that machine must still not crash)
-fn rejected_dist(g: &mut Gen) -> Dist {
+pub fn rejected_dist(g: &mut Gen) -> Dist {
     for _ in 0..200 {
         let bad = |g: &mut Gen| -> f64 {
             *g.pick(&[f64::NAN, f64::INFINITY, f64::NEG_INFINITY, -1.0, 0.0, 1e300, -1e300, 2.0, 1e43])
